@@ -2087,6 +2087,31 @@ class _MessageRun(_TableRun):
                     return isnone if isinstance(op, ast.Is) else (not isnone)
         return Dispatch._compare(self, l, op, r, w)
 
+    def ev(self, e, env, w):
+        if isinstance(e, ast.BinOp) and isinstance(e.op, ast.Add):
+            l, r = self.ev(e.left, env, w), self.ev(e.right, env, w)
+            if type(l) is type(r) and isinstance(l, (ast.Tuple, ast.List)) and not any(isinstance(x, ast.Starred) for x in list(l.elts) + list(r.elts)):
+                return type(l)(elts=list(l.elts) + list(r.elts), ctx=ast.Load())     # (a,) + (b,)
+            return ast.BinOp(left=l, op=e.op, right=r)
+        if isinstance(e, (ast.Tuple, ast.List)) and any(isinstance(x, ast.Starred) for x in e.elts):
+            elts = []
+            for x in e.elts:
+                if isinstance(x, ast.Starred):
+                    v = self.ev(x.value, env, w)
+                    if not isinstance(v, (ast.Tuple, ast.List)) or any(isinstance(y, ast.Starred) for y in v.elts):
+                        raise _Unsupported("unpacking of something that is not a display")
+                    elts += list(v.elts)
+                else:
+                    elts.append(self.ev(x, env, w))
+            return type(e)(elts=elts, ctx=ast.Load())
+        if isinstance(e, ast.Call) and isinstance(e.func, ast.Name) and e.func.id == "filter" and e.func.id not in env and len(e.args) == 2 and A.is_none(e.args[0]):
+            v = self.ev(e.args[1], env, w)
+            if isinstance(v, (ast.Tuple, ast.List)):
+                tvs = [self._tv(x) for x in v.elts]
+                if all(t is not None for t in tvs):
+                    return ast.List(elts=[x for x, t in zip(v.elts, tvs) if t], ctx=ast.Load())
+        return _TableRun.ev(self, e, env, w)
+
     # ---- messages -----------------------------------------------------------------------------------
     def _send(self, env, recv, op, args):
         cur = env.get(_SENDS) or ast.List(elts=[], ctx=ast.Load())
